@@ -1,5 +1,5 @@
 (** C05 — deposits and payouts move exactly the stated assets to the right party. *)
-From FM Require Import Exact.
+From FM Require Import HookDeposits.
 
 (** [deposit_target sender m]: the record a creation or top-up names — listing or bucket,
     filed under the depositor (the sender, or for the hooks the account the token contract
@@ -28,6 +28,28 @@ Theorem C05_deposit_wallets : forall w a fs m fail isl K,
   cw20bal w' = cw20bal w /\ nft_owner w' = nft_owner w.
 Proof. exact deposit_wallets. Qed.
 Print Assumptions C05_deposit_wallets.
+
+(** The same for deposits through an honest token contract's Send: exactly the sent amount of
+    that token (resp. exactly that NFT) moves from the user to the marketplace, nothing else. *)
+Theorem C05_cw20_deposit_wallets : forall w u t amt0 inner fail,
+  Inv (market w) -> u <> self_addr w ->
+  ok (snd (step w (Cw20Send u t amt0 inner fail))) = true ->
+  let w' := fst (step w (Cw20Send u t amt0 inner fail)) in
+  bank w' = bank w /\ nft_owner w' = nft_owner w /\
+  cw20bal w' t u + amt0 = cw20bal w t u /\ cw20bal w' t (self_addr w) = cw20bal w t (self_addr w) + amt0 /\
+  (forall t' x, t' <> t \/ (x <> u /\ x <> self_addr w) -> cw20bal w' t' x = cw20bal w t' x).
+Proof. exact cw20_deposit_wallets. Qed.
+Print Assumptions C05_cw20_deposit_wallets.
+
+Theorem C05_nft_deposit_wallets : forall w u c k inner fail,
+  Inv (market w) ->
+  ok (snd (step w (NftSend u c k inner fail))) = true ->
+  let w' := fst (step w (NftSend u c k inner fail)) in
+  bank w' = bank w /\ cw20bal w' = cw20bal w /\
+  nft_owner w c k = Some u /\ nft_owner w' c k = Some (self_addr w) /\
+  (forall c' k', (c', k') <> (c, k) -> nft_owner w' c' k' = nft_owner w c' k').
+Proof. exact nft_deposit_wallets. Qed.
+Print Assumptions C05_nft_deposit_wallets.
 
 (** Every successful bucket removal, listing deletion or purchased-listing withdrawal removes
     the sender's record and nothing else and emits exactly its recorded assets to the sender
